@@ -198,6 +198,9 @@ pub mod runtime;
 pub mod types;
 #[doc(hidden)]
 pub mod validators;
+#[cfg(async_graphql_verif)]
+#[doc(hidden)]
+pub mod verif_hooks;
 
 #[doc(hidden)]
 pub mod registry;
